@@ -484,6 +484,12 @@ func genVP8Frame(rng *rand.Rand, maxMBW, maxMBH int, force string) genVP8 {
 	// loop filter
 	simple := rng.Intn(2) == 0
 	sharp := rng.Intn(8)
+	if force == "ilimit-edges" {
+		// the interior limit is level >> (sharpness > 4 ? 2 : 1), capped at 9 - sharpness, at least 1: levels and
+		// sharpness values on both sides of each of these decisions
+		sharp = []int{4, 4, 5, 3, 1, 7}[rng.Intn(6)]
+		level = 2 + rng.Intn(22)
+	}
 	hd.put(b2i(simple), 128)
 	hd.lit(level, 6)
 	hd.lit(sharp, 3)
